@@ -12,7 +12,9 @@
            full conditionals (each ratio is independent of the variable being drawn);
      (iii) g(alpha) = Gamma(n) * prior(alpha) * alpha^K Gamma(alpha)/Gamma(alpha+n): the alpha-marginal of the joint is the
            posterior (given that the Beta density integrates to one);
-     (iv)  the run loop's (K, n) are (#clones, #data points in clones), whatever the outliers.
+     (iv)  the run loop's (K, n) are (#clones, #data points in clones), whatever the outliers;
+     (v)   the executable parameter model over Qc (tied to the code by the correspondence) denotes exactly the real-valued
+           weight / shape / scale / Beta parameters used in (i)-(ii).
    NOT proved: that a two-block Gibbs sweep on a continuous space leaves the joint invariant (integration), that the
    Beta / Gamma densities integrate to one, and that scipy's rvs sample from them.
    The Gamma function is a variable [Gam] with the visible premises Gam (s+1) = s * Gam s and Gam s > 0 for s > 0. *)
